@@ -14,21 +14,14 @@ Proof. exact all_total. Qed.
 Print Assumptions C14_total.
 
 (* inverse, first half: for field values within the ranges of the standard's vectors the
-   encoding exists and decodes to the same fields.  decoded_form is the identity on the fields
-   except: the dtlcp header fields come back as (message_seq, 0, body length); and the dtlcp
-   ClientHello decoder keeps only the last supported group / signature algorithm (finding K6) *)
+   encoding exists and decodes to the same fields, for both stacks and all ten message types
+   (no exception: a dtlcp ClientHello keeps all its supported groups / signature algorithms).
+   The header comes back as decoded_hdr: nothing for tlcp; for dtlcp (message_seq, 0, body
+   length), where wf asks for a stored header (message_seq, 0, 0 = "whole message") *)
 Theorem C14_decode_encode : forall st m h f, wf st m h f ->
-  exists bs, encode st m h f = Some bs /\ decode st m bs = Ok (decoded_form st bs h f).
+  exists bs, encode st m h f = Some bs /\ decode st m bs = Ok (decoded_hdr st bs h, f).
 Proof. exact all_decode_encode. Qed.
 Print Assumptions C14_decode_encode.
-
-(* for tlcp, and for dtlcp messages other than a ClientHello with several groups / algorithms,
-   decoded_form changes nothing in the fields *)
-Theorem C14_decoded_form_fields : forall st bs h f,
-  (forall x, st = SD -> f = FCH x -> (length (ch_curves x) <= 1)%nat /\ (length (ch_sigalgs x) <= 1)%nat) ->
-  snd (decoded_form st bs h f) = f.
-Proof. exact decoded_form_fields. Qed.
-Print Assumptions C14_decoded_form_fields.
 
 (* inverse, second half: a byte string that decodes and is canonical re-encodes to itself.
    canonical = framed as readHandshake frames it (type byte, length field = size - header and,
@@ -36,8 +29,7 @@ Print Assumptions C14_decoded_form_fields.
    accepted by the canonical parser of Model/CodecSpec.v, which admits exactly: extensions in
    the order marshal writes them, each at most once, a non-empty extension block if there is
    one, no unknown extension / identifier / name / status type, one host_name, empty OCSP
-   responder list and request extensions, non-empty OCSP response / ClientID (and, dtlcp, at
-   most one supported group and one signature algorithm) *)
+   responder list and request extensions, non-empty OCSP response / ClientID *)
 Theorem C14_encode_decode : forall st m bs h f, decode st m bs = Ok (h, f) -> bytes_ok bs ->
   canonical st m bs = true -> encode st m h f = Some bs.
 Proof. exact all_encode_decode. Qed.
@@ -89,9 +81,21 @@ Proof. vm_compute. split; reflexivity. Qed.
 Example C14_gap_D_finished :
   decode SD mFIN [20; 0; 0; 3; 0; 1; 0; 0; 0; 0; 0; 1; 170; 187] = Ok (mkDH 1 0 1, FBlob [170; 0; 0]).
 Proof. vm_compute. reflexivity. Qed.
-(* dtlcp ClientHello: two supported groups in, one out *)
-Example C14_gap_D_clientHello_groups :
-  let x := mkCH 257 (repeat 7 32) [] [] [57363] [0] [] [] false [41; 23] [] [] [] in
-  decode SD mCH (D_ch_enc (mkDH 0 0 0, x)) =
-  Ok (mkDH 0 0 (len (ch_body_enc true x)), FCH (ch_set_curves x [23])).
-Proof. vm_compute. reflexivity. Qed.
+(* dtlcp ClientHello: two supported groups and two signature algorithms in, the same out
+   (before fe30aba the decoder kept only the last value of each: finding K6, fixed) *)
+Example C14_D_clientHello_groups :
+  let x := mkCH 257 (repeat 7 32) [] [] [57363] [0] [] [] false [41; 23] [1799; 1800] [] [] in
+  decode SD mCH (D_ch_enc (mkDH 0 0 0, x)) = Ok (mkDH 0 0 (len (ch_body_enc true x)), FCH x) /\
+  canonical SD mCH (D_ch_enc (mkDH 0 0 0, x)) = true.
+Proof. vm_compute. split; reflexivity. Qed.
+(* a second supported_groups extension replaces the list in dtlcp and extends it in tlcp; neither
+   form is canonical (finding K4) *)
+Example C14_duplicate_groups :
+  let x := mkCH 257 (repeat 7 32) [] [] [57363] [0] [] [] false [] [] [] [] in
+  let exts := [0; 10; 0; 6; 0; 4; 0; 41; 0; 23; 0; 10; 0; 4; 0; 2; 0; 24] in
+  let body := u16 257 ++ repeat 7 32 ++ vec8 [] in
+  let rest := vec16 (u16s [57363]) ++ vec8 [0] ++ vec16 exts in
+  decode SD mCH (d_msg tClientHello (mkDH 0 0 0) (body ++ vec8 [] ++ rest)) =
+    Ok (mkDH 0 0 (len (body ++ vec8 [] ++ rest)), FCH (ch_set_curves x [24])) /\
+  decode ST mCH (t_hdr tClientHello (body ++ rest)) = Ok (h0, FCH (ch_set_curves x [41; 23; 24])).
+Proof. vm_compute. split; reflexivity. Qed.
